@@ -376,8 +376,8 @@ func batchChild(inb []byte) (any, error) {
 		go func() { wg.Wait(); close(done) }()
 		select {
 		case <-done:
-		case <-time.After(60 * time.Second):
-			h.Note = "clients did not finish within 60 s (watchdog)"
+		case <-time.After(180 * time.Second):
+			h.Note = "clients did not finish within 180 s (watchdog)"
 			out.Hists = append(out.Hists, h)
 			return out, nil
 		}
